@@ -237,6 +237,10 @@ func (g *graphMemoizer) Objects(ctx context.Context, s *node.Node, p *predicate.
 		}
 	}
 	wg.Wait()
+	if err != nil {
+		// A failed lookup may have delivered only part of its results.
+		return err
+	}
 	g.mu.Lock()
 	g.memO[k] = mobjs
 	g.mu.Unlock()
@@ -310,6 +314,10 @@ func (g *graphMemoizer) Subjects(ctx context.Context, p *predicate.Predicate, o 
 		}
 	}
 	wg.Wait()
+	if err != nil {
+		// A failed lookup may have delivered only part of its results.
+		return err
+	}
 	g.mu.Lock()
 	g.memN[k] = msubs
 	g.mu.Unlock()
@@ -373,6 +381,10 @@ func (g *graphMemoizer) PredicatesForSubject(ctx context.Context, s *node.Node, 
 		}
 	}
 	wg.Wait()
+	if err != nil {
+		// A failed lookup may have delivered only part of its results.
+		return err
+	}
 	g.mu.Lock()
 	g.memP[k] = mpreds
 	g.mu.Unlock()
@@ -436,6 +448,10 @@ func (g *graphMemoizer) PredicatesForObject(ctx context.Context, o *triple.Objec
 		}
 	}
 	wg.Wait()
+	if err != nil {
+		// A failed lookup may have delivered only part of its results.
+		return err
+	}
 	g.mu.Lock()
 	g.memP[k] = mpreds
 	g.mu.Unlock()
@@ -499,6 +515,10 @@ func (g *graphMemoizer) PredicatesForSubjectAndObject(ctx context.Context, s *no
 		}
 	}
 	wg.Wait()
+	if err != nil {
+		// A failed lookup may have delivered only part of its results.
+		return err
+	}
 	g.mu.Lock()
 	g.memP[k] = mpreds
 	g.mu.Unlock()
@@ -562,6 +582,10 @@ func (g *graphMemoizer) TriplesForSubject(ctx context.Context, s *node.Node, lo 
 		}
 	}
 	wg.Wait()
+	if err != nil {
+		// A failed lookup may have delivered only part of its results.
+		return err
+	}
 	g.mu.Lock()
 	g.memT[k] = mts
 	g.mu.Unlock()
@@ -625,6 +649,10 @@ func (g *graphMemoizer) TriplesForPredicate(ctx context.Context, p *predicate.Pr
 		}
 	}
 	wg.Wait()
+	if err != nil {
+		// A failed lookup may have delivered only part of its results.
+		return err
+	}
 	g.mu.Lock()
 	g.memT[k] = mts
 	g.mu.Unlock()
@@ -688,6 +716,10 @@ func (g *graphMemoizer) TriplesForObject(ctx context.Context, o *triple.Object, 
 		}
 	}
 	wg.Wait()
+	if err != nil {
+		// A failed lookup may have delivered only part of its results.
+		return err
+	}
 	g.mu.Lock()
 	g.memT[k] = mts
 	g.mu.Unlock()
@@ -751,6 +783,10 @@ func (g *graphMemoizer) TriplesForSubjectAndPredicate(ctx context.Context, s *no
 		}
 	}
 	wg.Wait()
+	if err != nil {
+		// A failed lookup may have delivered only part of its results.
+		return err
+	}
 	g.mu.Lock()
 	g.memT[k] = mts
 	g.mu.Unlock()
@@ -814,6 +850,10 @@ func (g *graphMemoizer) TriplesForPredicateAndObject(ctx context.Context, p *pre
 		}
 	}
 	wg.Wait()
+	if err != nil {
+		// A failed lookup may have delivered only part of its results.
+		return err
+	}
 	g.mu.Lock()
 	g.memT[k] = mts
 	g.mu.Unlock()
@@ -892,6 +932,10 @@ func (g *graphMemoizer) Triples(ctx context.Context, lo *storage.LookupOptions, 
 		}
 	}
 	wg.Wait()
+	if err != nil {
+		// A failed lookup may have delivered only part of its results.
+		return err
+	}
 	g.mu.Lock()
 	g.memT[k] = mts
 	g.mu.Unlock()
